@@ -232,6 +232,8 @@ def dag_pipeline():
                 break
         if isinstance(st, ast.Return):
             continue
+        if call is None and isinstance(st, ast.Assign) and not any(isinstance(n, ast.Call) for n in ast.walk(st)):
+            continue   # a helper variable without any call (the data flow of the steps is checked by extract_dag)
         if call is None:
             raise ExtractError(f"create_dag_from_session: unrecognised statement {ast.unparse(st)!r}")
         names.append(call)
